@@ -7,7 +7,7 @@ ROOT = os.path.dirname(os.path.dirname(os.path.abspath(__file__)))
 CHECKS = {
     "C02": dict(level="fault_enumeration", engine="hcore",
         technique="runtime monitoring: agreement oracle over recorded hand-overs of the real rbc.Receiver / threshold dispatch under a Byzantine strategy catalogue; delivery schedules enumerated by sleep-set DFS (small N) and sampled",
-        text="Every hand-over of a broadcast-class message at an honest party is recorded by harness-owned backends; the oracle groups them by (session, sender, round) and demands byte-identical payloads. Executions: a Byzantine sender with 0..N-3 accomplices (equivocation over every 2-partition of the honest set, self-acknowledgement before/after/instead of the payload, accomplice vouchers for both versions, replays, forged acknowledgements), N=3..5, all inequivalent delivery orders for N=3 (and N=4 up to a bound), PRNG-sampled orders beyond. This is the level a monitor can give: held on the executions produced, exhaustive only for the flagged sub-spaces.",
+        text="Every hand-over of a broadcast-class message at an honest party is recorded by harness-owned backends; the oracle groups them by (session, sender, round) and demands byte-identical payloads. Executions: a Byzantine sender with 0..N-3 accomplices (equivocation over every 2-partition of the honest set, self-acknowledgement before/after/instead of the payload, accomplice vouchers for both versions, replays, forged acknowledgements), N=3..5, all inequivalent delivery orders for N=3 (and N=4 up to a bound), PRNG-sampled orders beyond. This is the level a monitor can give: held on the executions produced, exhaustive only for the flagged sub-spaces. Orchestrator-level scenarios include key generation with thresholds below n-1 (the broadcast of a key generation needs the vouchers of all other parties whatever the threshold) and PRNG mixtures of the catalogue's ingredients.",
         note="Trusted: the harness's recording backend and simulated network (per-link FIFO, true origin stamped as Source); Byzantine content is taken from the strategy catalogue, not adaptive; schedules beyond the enumerated/sampled ones are not covered.",
         design="2/C02"),
     "C03": dict(level="fault_enumeration", engine="hcore",
@@ -17,17 +17,17 @@ CHECKS = {
         design="2/C03"),
     "C04": dict(level="exploration", engine="hcore",
         technique="runtime monitoring: exactly-once totality oracle at quiescence of all-honest runs; all inequivalent delivery interleavings by sleep-set DFS for small configurations, sampled overtaking schedules beyond",
-        text="At quiescence of an all-honest run the multiset of hand-overs must equal the script (every broadcast once at every other party, every point-to-point message once at its addressee); a flagged equivocation shows up as a missing later hand-over because all rounds are in flight together. N=2..5(6), several concurrent senders, 1..3 rounds, acknowledgements overtaking payloads counted.",
+        text="At quiescence of an all-honest run the multiset of hand-overs must equal the script (every broadcast once at every other party, every point-to-point message once at its addressee); a flagged equivocation shows up as a missing later hand-over because all rounds are in flight together. N=2..5(6), several concurrent senders, 1..3 rounds, acknowledgements overtaking payloads counted. Orchestrated configurations include two-byte party identifiers.",
         note="Trusted: harness recorder and network; sleep-set independence (deliveries at different receivers commute) relies on parties sharing no state.",
         design="2/C04"),
     "C14": dict(level="exploration", engine="hcore",
         technique="runtime monitoring under a controlled scheduler: the real msg.Box parks at verif yield points (lock boundaries and shared-state accesses), interleavings of concurrent receive/Send calls enumerated by stateless DFS and PRNG schedules; exactly-once/in-order oracle on the handler log; plus a stress arm with real goroutines",
-        text="One controlled thread runs at a time; threads waiting for a lock are recognised by their goroutine wait state, so yield points may lie inside critical sections and a shrunk critical section creates new interleavings instead of hiding them. Eleven configurations of concurrent receives and (repeated) first Sends on one or two topics; two enumerated completely in the quick tier, the others up to a bound and then sampled. Oracle at quiescence: every message received for a topic whose Send completed was handed to the dispatcher exactly once, per-sender order = arrival order.",
+        text="One controlled thread runs at a time; threads waiting for a lock are recognised by their goroutine wait state, so yield points may lie inside critical sections and a shrunk critical section creates new interleavings instead of hiding them. Eleven configurations of concurrent receives and (repeated) first Sends on one or two topics; two enumerated completely in the quick tier, the others up to a bound and then sampled. Oracle at quiescence: every message received for a topic whose Send completed was handed to the dispatcher exactly once, per-sender order = arrival order. Three configurations run the collector on a hand-driven epoch clock whose tick is a schedulable operation.",
         note="Trusted: the hook placement (interleavings are explored at the granularity of the verif yield points of msg/msgbox.go), the harness handler; expiry disabled. Real-scheduler interleavings are covered only by the stress arm.",
         design="2/C14"),
     "C15": dict(level="exploration", engine="hcore",
         technique="runtime monitoring against a reference model written from the statement: generated histories (bursts, topic churn, virtual epoch ticks, idle periods, GC-driving sends) on the real msg.Box with small injected limits; racing first-Send schedules replayed under the controlled scheduler followed by a throttle probe",
-        text="The model predicts for every buffered message must-deliver / must-not-deliver / either (bands: limit..limit+1, expired-but-not-yet-swept) and is compared with what each Send releases; a panic on excess traffic kills the child and is reported by the parent. Virtual epoch clock (hand-made ticker) makes expiry deterministic; three real-clock histories cover the real ticker. A second unit replays each interleaving of {buffered; receive || first Send} on three topics and then demands that the sender is still served.",
+        text="The model predicts for every buffered message must-deliver / must-not-deliver / either (bands: limit..limit+1, expired-but-not-yet-swept) and is compared with what each Send releases; a panic on excess traffic kills the child and is reported by the parent. Virtual epoch clock (hand-made ticker) makes expiry deterministic; three real-clock histories cover the real ticker. A second unit replays each interleaving of {buffered; receive || first Send} on three topics and then demands that the sender is still served. A conservation monitor bounds from the released messages alone how many topics a sender held at one instant (limit+1 at most).",
         note="Trusted: the reference model (from the statement, not from the code); per-topic limit constant 100 as documented in msgbox.go; expiry judged only after three GC opportunities spaced by more than the expiry.",
         design="2/C15"),
     "C06": dict(level="exploration", engine="hcore",
@@ -37,12 +37,12 @@ CHECKS = {
         design="2/C06"),
     "C12": dict(level="exploration", engine="hcore",
         technique="runtime monitoring of API-call histories on one cluster of real schemes: residue-free reference (every operation's outcome depends on the operation alone), verifPoint holds to make the cleanup/registration windows deterministic, late-replay and foreign-traffic injection, silent-mode re-use sub-oracle with known-finding signatures",
-        text="PRNG histories (8..40 operations, 3..5 nodes, 2..4 topics; loud with real disc.Member, barrier and silent mode) of successful, too-few-callers and cancelled KeyGen/Sign calls, cancellation with the continuation parked at a verif point, Sign re-issued the moment the previous one returned (continuation held after the result hand-off), two topics at once, duplicate Sign on a live topic (first session must survive), replay of a finished session's whole traffic (no hand-over, no transmission may result), traffic of a member outside the session and of a non-member during a live session (exactly-once hand-over must still hold). A 'Programming error' panic kills the child and is reported by the parent.",
+        text="PRNG histories (8..40 operations, 3..5 nodes, 2..4 topics; loud with real disc.Member, barrier and silent mode) of successful, too-few-callers and cancelled KeyGen/Sign calls, cancellation with the continuation parked at a verif point, Sign re-issued the moment the previous one returned (continuation held after the result hand-off), two topics at once, duplicate Sign on a live topic (first session must survive), replay of a finished session's whole traffic (no hand-over, no transmission may result), traffic of a member outside the session and of a non-member during a live session (exactly-once hand-over must still hold). A 'Programming error' panic kills the child and is reported by the parent. Cancellation is also parked inside the protocol instance's Init (between instance creation and handler registration).",
         note="Trusted: harness recorder/network; silent-mode histories use fresh topics, re-use in silent mode is decided by the c12silent unit whose two failures are recorded as known findings (no small sound repair). Deadlines are watchdogs: a history that hits one is replayed with 5x deadlines before being judged.",
         design="2/C12"),
     "C07": dict(level="exploration", engine="hcore",
         technique="runtime monitoring of real disc.Member objects on a disc-level network: list-validity, pairwise-agreement, exactly-once-continuation and bounded-progress oracles over honest sessions and targeted Byzantine plans built from real Member instances (filtered inputs, re-routed outputs, replays)",
-        text="Honest sessions over universes of 2..12 members, participant subsets and identifiers from the whole 16-bit range: exactly-expected callers must all complete with identical valid lists (bounded progress, watchdog + replay), fewer must all fail without continuation, more are judged by the two-outcome, validity and agreement oracles only. Byzantine members are real Member instances under one identifier with filtered inputs and re-routed outputs: partition-and-lie, shadow coalition with a phantom of a silent member (its acknowledgements are re-routed to the honest members), two-faced, replaying outsider/member, response flood. Evidence counts honest completions under attack; a floor requires them.",
+        text="Honest sessions over universes of 2..12 members, participant subsets and identifiers from the whole 16-bit range: exactly-expected callers must all complete with identical valid lists (bounded progress, watchdog + replay), fewer must all fail without continuation, more are judged by the two-outcome, validity and agreement oracles only. Byzantine members are real Member instances under one identifier with filtered inputs and re-routed outputs: partition-and-lie, shadow coalition with a phantom of a silent member (its acknowledgements are re-routed to the honest members), two-faced, replaying outsider/member, response flood. Evidence counts honest completions under attack; a floor requires them. Further plans: late surplus announcer, surplus and view rewrite at a decision point (victim held at a verif point of Synchronize), mirror and crafted lists (the list part of a real instance's transmissions replaced under its real tag).",
         note="Trusted: harness network (per-link FIFO, true origin), the plans (targeted, not exhaustive). Unbounded liveness is restated as completion within a generous deadline with a replay at 5x before judging.",
         design="2/C07"),
     "C13": dict(level="exploration", engine="hcore+hcrypto+hbinance",
@@ -57,7 +57,7 @@ CHECKS = {
         design="2/C01"),
     "C05": dict(level="fault_enumeration", engine="hcrypto",
         technique="runtime monitoring of BLS/PS key generations in which one participant is a real backend behind a perturbing wrapper (strategy catalogue x victim sets x (n,t) incl. t=n x delivery orders); oracles: consistent-or-error, joint signing of honest completers under the reported key, reveal-after-all-commitments from the event order, no panic/hang",
-        text="Sixteen strategies (off-polynomial share received, flipped outgoing share on x and on each y_j, altered commitment/reveal, copy of an honest party's key, malformed/duplicated/withheld share, commitment, reveal, reveal before commitment), every single honest victim and all honest parties as victims. The context is cancelled at quiescence determined from goroutine wait states (no timing guess).",
+        text="Sixteen strategies (off-polynomial share received, flipped outgoing share on x and on each y_j, altered commitment/reveal, copy of an honest party's key, malformed/duplicated/withheld share, commitment, reveal, reveal before commitment), every single honest victim and all honest parties as victims. The context is cancelled at quiescence determined from goroutine wait states (no timing guess). The disclosure clause is also judged by content: no 32-byte window of the key an honest party finally reveals may occur in anything it transmitted before it held all commitments.",
         note="Trusted: tag-byte + body layout of share messages (guarded by a re-encoding self-check); the backends' own ClassifyMsg for message classes; equivocation of broadcast-class messages is the reliable broadcast's subject (C02) and is not repeated here.",
         design="2/C05"),
     "C08": dict(level="exploration", engine="hcrypto",
@@ -67,37 +67,37 @@ CHECKS = {
         design="2/C08"),
     "C09": dict(level="exploration", engine="hcrypto",
         technique="runtime monitoring with a perturbation catalogue over genuine objects: every bound component of BLS signatures, PS signing requests and PS proofs altered by one group/field unit or swapped across sessions must be rejected; same object verified/signed twice must give the same verdict; expected verdicts involving Lagrange coefficients come from an independent math/big reference",
-        text="About 560 perturbed objects per quick run over six (n,t); includes a proof forged from the public key alone (all G1 components the identity) built outside the package, with a self-check on the rejection reason that reports when the replica of the proof's random oracle no longer matches the build.",
+        text="About 560 perturbed objects per quick run over six (n,t); includes a proof forged from the public key alone (all G1 components the identity) built outside the package, with a self-check on the rejection reason that reports when the replica of the proof's random oracle no longer matches the build. An adaptive requester re-implemented outside the package (self-checked: its honest request is accepted by the real signer) plants offsets before the challenge and moves or solves statement/proof components afterwards: accepted exactly if the challenge does not bind the component.",
         note="Cryptographic soundness outside the catalogue is not decided by monitoring; a forged object verifying by chance has probability ~2^-250.",
         design="2/C09"),
     "C11": dict(level="fault_enumeration", engine="hcore+hcrypto",
         technique="crash-point enumeration with an outcome oracle: every peer muted after its k-th transmission, every single transmission withheld, context cancelled at quiescence (logical time), by deadline with PRNG phase, or INSIDE a party's k-th send call; every call must return (error, or nil only with a complete/consistent session) within a watchdog, never panic",
-        text="Scripted backend through real schemes (barrier, silent, loud with real disc.Member; KeyGen and Sign; unusable stored data), directly wired BLS/PS key generations, and BLS/PS key generation through real Loud/Silent schemes with one node silent after its k-th transmission under a deadline (a panic in a background goroutine after KeyGen returned kills the child and is reported by the parent). A hang is replayed alone with a 5x watchdog before it is reported.",
+        text="Scripted backend through real schemes (barrier, silent, loud with real disc.Member; KeyGen and Sign; unusable stored data), directly wired BLS/PS key generations, and BLS/PS key generation through real Loud/Silent schemes with one node silent after its k-th transmission under a deadline (a panic in a background goroutine after KeyGen returned kills the child and is reported by the parent). A hang is replayed alone with a 5x watchdog before it is reported. Sign through real schemes with the real BLS/PS signers and stored data of every kind (none, garbage, truncated, fewer parties, other scheme, other key generation), followed by further calls on the same objects.",
         note="Goroutine leaks that never surface as a blocked caller are not detected. tss-lib adapters with short deadlines are added by the hbinance driver when built.",
         design="2/C11"),
     "C18": dict(level="exploration", engine="hcrypto",
         technique="runtime monitoring: (i) secrets dealt with the exported SSS.Gen, shares wrapped as stored data, EVERY subset of size >= t of every (n,t) up to a bound combined through the public API and verified under g2^P(0) (subset spaces enumerated completely); (ii) key generations with exactly one off-polynomial party key (every position, BLS x / PS x and y_j): all abort for t<n, all accept for t=n and delta=0",
-        text="BLS n<=7 (9), PS n<=5 (6) for (i); BLS n<=5 (6), PS n<=4 (5) for (ii). A random evaluation decides each polynomial identity up to 2^-240, as the property says.",
+        text="BLS n<=7 (9), PS n<=5 (6) for (i); BLS n<=5 (6), PS n<=4 (5) for (ii). A random evaluation decides each polynomial identity up to 2^-240, as the property says. Large committees with high thresholds (up to n=100) with extreme and PRNG subsets.",
         note="Trusted: mathlib group arithmetic; exported SSS types.",
         design="2/C18"),
     "C16": dict(level="fault_enumeration", engine="hcore",
         technique="runtime monitoring of real TLS listeners: hostile handshake catalogue (field-level through the library's own client with a hostile AuthFunc, encoding-level through a raw TLS client that computes the channel binding itself) interleaved with honest connections; marker <-> connection <-> entitled identity oracle on the InMsg channel after a fence",
-        text="About 255 handshakes per quick run: domain (other registered, unregistered, empty, boundary shifted either way), binding (zero, random, truncated, bit flip, whole handshake recorded on another connection), identity (unregistered, foreign certificate, PEM with garbage, non-PEM, RSA, Ed25519, P-384), signature (absent, random, other key, over other binding/domain/timestamp, garbled, truncated), every 4th (thorough: every) truncation length, length-prefix lies, trailing bytes. Valid handshakes must be attributed to exactly the entitled node and domain; the raw client's unmodified handshake is the format self-check. A crash of the acceptor kills the child and is reported by the parent.",
+        text="About 255 handshakes per quick run: domain (other registered, unregistered, empty, boundary shifted either way), binding (zero, random, truncated, bit flip, whole handshake recorded on another connection), identity (unregistered, foreign certificate, PEM with garbage, non-PEM, RSA, Ed25519, P-384), signature (absent, random, other key, over other binding/domain/timestamp, garbled, truncated), every 4th (thorough: every) truncation length, length-prefix lies, trailing bytes. Valid handshakes must be attributed to exactly the entitled node and domain; the raw client's unmodified handshake is the format self-check. A crash of the acceptor kills the child and is reported by the parent. Identities with foreign key types are also certified by an ECDSA CA; the domain is sent in every ASN.1 string type; every registered identity, one registered without a domain, claims every domain.",
         note="Trusted: crypto/tls, the fence + grace period (a slow machine can only miss a detection). Timestamp staleness is not judged (not in the property's list).",
         design="2/C16"),
     "C17": dict(level="exploration", engine="hcore",
         technique="runtime monitoring of real endpoints on loopback: sequence and multiset comparison of (type, topic, payload) digests per (connection, sending goroutine) over boundary payload sizes and concurrent senders; oversize refusal; fault scenarios (unreachable, closed, stalled, garbling peers) with a healthy-traffic continuity oracle",
-        text="Sizes {0,1,31,32,33,255,256,65535,65536,1 MiB,3 MiB,limit-1,limit,limit+1}, types with and without topic, up to 8 concurrent senders to two receivers; five garbling raw clients; three isolation scenarios (thorough adds the saturated queue of an unreachable peer: three 10 s stalls are reported, never a panic).",
+        text="Sizes {0,1,31,32,33,255,256,65535,65536,1 MiB,3 MiB,limit-1,limit,limit+1}, types with and without topic, up to 8 concurrent senders to two receivers; five garbling raw clients; three isolation scenarios (thorough adds the saturated queue of an unreachable peer: three 10 s stalls are reported, never a panic). Receiving side: inbound connections stalled before/inside the TLS handshake, the application handshake and a frame must not keep a healthy peer from connecting and delivering.",
         note="Trusted: loopback TCP; 'all received' is bounded by message count with a 60 s watchdog.",
         design="2/C17"),
     "C19": dict(level="exploration", engine="hbinance",
         technique="runtime monitoring of complete tss-lib runs through the adapters with a recording sendMsg: classification table oracle (receiver's ClassifyMsg vs tss-lib's routing flag, non-zero and distinct rounds), independent signature verification (crypto/ed25519, crypto/ecdsa) over boundary digests, digest mix-up sessions, re-attribution and outsider-injection sessions with safety outcome oracles",
-        text="EdDSA (n,t) in {(2,1),(3,1),(3,2),(4,2),(4,3)} with identifier sets 1..n, gaps and PRNG 16-bit; ECDSA (2,1) quick, (3,1),(3,2) thorough; EdDSA key generation and orchestrated signing through real Loud/Silent schemes (this also decides C01's orchestrated-signing clause). Outsiders whose identifiers lie between the members' re-send every genuine message first: the session must complete as if nothing happened.",
+        text="EdDSA (n,t) in {(2,1),(3,1),(3,2),(4,2),(4,3)} with identifier sets 1..n, gaps and PRNG 16-bit; ECDSA (2,1) quick, (3,1),(3,2) thorough; EdDSA key generation and orchestrated signing through real Loud/Silent schemes (this also decides C01's orchestrated-signing clause). Outsiders whose identifiers lie between the members' re-send every genuine message first: the session must complete as if nothing happened. Disguised envelopes (type field twice, payload twice, opposite field order) must be classified as the library type tss-lib's own parser decodes them to.",
         note="tss-lib v2.0.2 wire bytes carry no embedded sender, so the 'embedded sender differs' clause cannot occur on the wire; the consequence it protects (no message credited to anyone but its transport sender) is what is decided. Trusted: crypto/ed25519, crypto/ecdsa.",
         design="2/C19"),
     "C20": dict(level="other", engine="hcore+hcrypto+hbinance (-race builds)",
         technique="sanitizer: the Go race detector over full-stack sessions with concurrent per-link dispatch, staggered starts, several sessions at once and out-of-phase / duplicated traffic of a misbehaving participant; reports parsed from the detector's log files, de-duplicated by the pair of innermost IBM/TSS frames",
-        text="-race builds of all three drivers; scripted, BLS, PS and EdDSA backends; loud and silent mode; the out-of-phase scenarios re-send an earlier session's broadcast-class messages 0..200 us behind each transmission (the detector decides happens-before, the workload only has to make both sides execute without an intervening lock hand-over). A report whose frames are all in the harness is a harness failure (exit 3), reports with third-party frames only are counted, not judged.",
+        text="-race builds of all three drivers; scripted, BLS, PS and EdDSA backends; loud and silent mode; the out-of-phase scenarios re-send an earlier session's broadcast-class messages 0..200 us behind each transmission (the detector decides happens-before, the workload only has to make both sides execute without an intervening lock hand-over). A report whose frames are all in the harness is a harness failure (exit 3), reports with third-party frames only are counted, not judged. One scenario re-sends the synchronisation traffic of a finished key generation continuously while further key generations start.",
         note="Reports vary from run to run: the quick tier repeats each scenario 10-12 times, thorough 100-120 times. Interleavings not produced are not covered.",
         design="2/C20"),
     "C10": dict(level="exploration", engine="hcore+hcrypto+hbinance",
